@@ -15,7 +15,9 @@ META = {
              "position is real) with kind in {exception, short read (prefix), empty read}; for the blob backend the "
              "harness also owns the completion order of the concurrent range reads (drawn ranks; a request completes "
              "only when it has the lowest rank among all requests that can be outstanding); oracle: the call raises, "
-             "or returns exactly the truth (spec-only decode); the quick tier additionally enumerates every position "
+             "or returns exactly the truth (spec-only decode), and 0-3 further calls made on the same reader afterwards with "
+             "no fault armed (the same call, the neighbouring item whose reads start where the failed one ended, any other "
+             "call) return exactly the truth; the quick tier additionally enumerates every position "
              "x every kind for one call per method on two fixed files; non-trivial = fault hits a read issued from a "
              "pool worker, or position > 1, or a non-submission completion order; distinct = (method, backend, kind, "
              "position class, layout)"),
@@ -52,7 +54,9 @@ def cases(draw, two_d=False):
     desc = draw(files.spec_file_2d(max_voxels=60_000)) if two_d else \
         draw(files.spec_file_3d(max_voxels=120_000, versions=["0.2.8", "0.2.8", "0.2.1"]))
     nf = draw(st.sampled_from([1, 1, 1, 2]))
-    return {"file": desc, "a": draw(ops.abstract_op(METHODS)), "backend": draw(st.sampled_from(["local", "blob"])),
+    after = [{"how": draw(st.sampled_from(["same", "next", "next", "prev", "other"])), "step": draw(st.sampled_from([1, 4, 4, 8, 64])),
+              "a": draw(ops.abstract_op(METHODS))} for _ in range(draw(st.sampled_from([0, 1, 1, 2, 3])))]
+    return {"file": desc, "a": draw(ops.abstract_op(METHODS)), "backend": draw(st.sampled_from(["local", "blob"])), "after": after,
             "faults": [[draw(st.floats(0, 1, exclude_max=True)), draw(st.sampled_from(KINDS)), draw(st.floats(0, 1, exclude_max=True))]
                        for _ in range(nf)],
             "ranks": draw(st.lists(st.integers(0, 20), min_size=0, max_size=20)),
@@ -66,8 +70,43 @@ def make_backend(case, path, total=0):
     return iomodel.CountingBlob(path, controller=ctl)
 
 
-def attempt(case, path, T, op, plan, total):
-    """Run op on a fresh reader under a fault plan.  Returns (outcome, value, log)."""
+def axis_len(T, m):
+    if T.is_2d:
+        return T.n_tr if m != "get_tracefield_values" else None
+    if m in ("read_inline", "read_inline_number", "iline"):
+        return T.n_il
+    if m in ("read_crossline", "read_crossline_number", "xline"):
+        return T.n_xl
+    if m in ("read_zslice", "read_zslice_coord", "depth_slice"):
+        return T.n_s
+    if m in ("get_trace", "trace", "gen_trace_header", "gen_trace_header_all", "header", "get_trace_window", "get_trace_by_coord"):
+        return T.n_tr
+    return None
+
+
+def followup_ops(T, op, after):
+    """Calls made on the same reader after the faulted one, with no fault armed: the same call again, the
+    neighbouring item (whose range reads start where the failed ones ended), or any other call."""
+    out = []
+    for f in after or []:
+        if f["how"] == "same":
+            out.append(dict(op))
+            continue
+        n = axis_len(T, op["m"])
+        if f["how"] in ("next", "prev") and n and op["m"] != "read_subplane" and len(op["a"]) >= 1:
+            o2 = json.loads(json.dumps(op))
+            o2["a"][0] = (op["a"][0] + (f["step"] if f["how"] == "next" else -f["step"])) % n
+            out.append(o2)
+            continue
+        o2 = ops.concretise(T, f["a"])
+        if o2 is not None and o2["m"] in ops.methods_for(T, reader_only=True):
+            out.append(o2)
+    return out
+
+
+def attempt(case, path, T, op, plan, total, after=()):
+    """Run op on a fresh reader under a fault plan, then the follow-up ops on the same reader with the
+    plan disarmed.  Returns (outcome, value, log, follow-up results)."""
     from seismic_zfp.read import SgzReader
     backend = make_backend(case, path, total)
     r = SgzReader(backend)
@@ -82,7 +121,17 @@ def attempt(case, path, T, op, plan, total):
             outcome = "ok"
         except Exception as e:
             outcome, got = "exc", e
-        return outcome, got, list(backend.log)
+        log = list(backend.log)
+        later = []
+        if after:
+            backend.arm(None)
+            for o2 in after:
+                try:
+                    later.append((o2, "ok", ops.perform(H, o2)))
+                except Exception as e:
+                    later.append((o2, "exc", e))
+        attempt.later = later
+        return outcome, got, log
     finally:
         try:
             r.close()
@@ -96,10 +145,24 @@ def run_plan(case, ctx, path, T, op, positions_kinds, L):
     for idx, kind, frac in positions_kinds:
         off, req = L[idx]
         plan[(off, req)] = ("short", frac) if kind == "short" else kind
-    outcome, got, log = attempt(case, path, T, op, plan, len(L))
+    case = dict(case)
+    outcome, got, log = attempt(case, path, T, op, plan, len(L), after=followup_ops(T, op, case.get("after")))
     injected = [e for e in log if e[2] != e[1]]
     if not injected:
         return "not-reached"
+    # calls made afterwards on the same reader meet no failing read: they return the true data
+    for o2, oc, g2 in attempt.later:
+        if oc == "exc":
+            raise Violation(f"call-after-fault-raised:{o2['m']}",
+                            f"{case['backend']} backend: after a faulted {op} ({[(L[i], k) for i, k, _ in positions_kinds]}), the "
+                            f"fault-free call {o2} on the same reader raised {type(g2).__name__}: {g2}")
+        k2, w2 = ops.expected(T, o2)
+        try:
+            ops.compare(k2, g2, w2, o2)
+        except Violation as v:
+            raise Violation(f"call-after-fault-wrong:{o2['m']}",
+                            f"{case['backend']} backend: after a faulted {op} ({[(L[i], k) for i, k, _ in positions_kinds]}), the "
+                            f"fault-free call {o2} on the same reader returned a wrong result ({v.detail[:200]})")
     if outcome == "exc":
         return "raised"
     kind, want = ops.expected(T, op)
@@ -130,8 +193,9 @@ def run_case(case, ctx):
     fam = case["file"]["family"] if (T.is_2d or T.structured) else "irregular"
     pos = "first" if pk[0][0] == 0 else ("last" if pk[0][0] == len(L) - 1 else "middle")
     nontriv = pk[0][0] > 0 or len(L) > 1 or bool(case.get("ranks"))
-    return {"sig": [op["m"], case["backend"], pk[0][1], pos, fam, len(pk), bool(case.get("ranks"))] if (nontriv and res != "not-reached") else None,
-            "labels": [res, op["m"], case["backend"], pk[0][1]]}
+    hows = sorted({f["how"] for f in case.get("after") or []})
+    return {"sig": [op["m"], case["backend"], pk[0][1], pos, fam, len(pk), bool(case.get("ranks")), hows] if (nontriv and res != "not-reached") else None,
+            "labels": [res, op["m"], case["backend"], pk[0][1]] + ["after:" + h for h in hows]}
 
 
 # ---- complete enumeration of positions x kinds for one call per method on fixed files -------------
@@ -165,7 +229,8 @@ def enumerate_fixed(ctx):
         op = ops.concretise(T, a)
         if op is None or op["m"] not in ops.methods_for(T, reader_only=True):
             continue
-        case = {"check": "enum", "file": FIXED[fk], "a": a, "backend": backend, "ranks": [], "multithreading": True}
+        case = {"check": "enum", "file": FIXED[fk], "a": a, "backend": backend, "ranks": [], "multithreading": True,
+                "after": [{"how": "next", "step": 4, "a": a}, {"how": "same", "step": 1, "a": a}]}
         outcome, got, L0 = attempt(case, path, T, op, None, 0)
         if outcome != "ok":
             ctx.fail(case, Violation(f"exception:{m}", repr(got)))
